@@ -5,6 +5,18 @@ import json, os, subprocess, sys, time
 env = dict(os.environ, GOFLAGS="-mod=mod", GOPROXY="off", GOSUMDB="off")
 names = sys.argv[1:] or sorted(os.listdir("/verif/seeded"))
 tier = os.environ.get("TIER", "quick")
+COPY = os.environ.get("MUT_COPY")  # evaluate on a copy of /repo (while another check may be building from /repo)
+REPO = "/tmp/mutrepo" if COPY else "/repo"
+def prep():
+    if COPY:
+        subprocess.run("mkdir -p /tmp/mutrepo && rsync -a --delete --exclude .git /repo/ /tmp/mutrepo/", shell=True, check=True)
+def undo():
+    if COPY:
+        subprocess.run("rm -rf /tmp/mutrepo", shell=True)
+    else:
+        subprocess.run("git checkout -- .", cwd="/repo", shell=True)
+def checkcmd(c, tier):
+    return f"bin/simrun -prop {c} -tier {tier} -repo /tmp/mutrepo" if COPY else f"./check {c} {tier}"
 def run(cmd, cwd, timeout=7200):
     p = subprocess.run(cmd, cwd=cwd, shell=True, env=env, capture_output=True, text=True, timeout=timeout)
     return p.returncode, p.stdout + p.stderr
@@ -13,19 +25,20 @@ for name in names:
     d = f"/verif/seeded/{name}"
     meta = json.load(open(f"{d}/meta.json"))
     checks = os.environ.get("CHECKS", "").split() or list(meta.get("ran", {}).get("checks", {}).keys()) or [meta["property"]]
-    rc, out = run(f"git apply {d}/patch.diff", "/repo")
+    prep()
+    rc, out = run(f"git apply {d}/patch.diff", REPO)
     if rc != 0:
         print(name, "cannot apply:", out.strip()[:200]); continue
     res = meta.setdefault("ran", {}).setdefault("checks", {})
     try:
         for c in checks:
             t0 = time.time()
-            rc, out = run(f"./check {c} {tier}", "/verif")
+            rc, out = run(checkcmd(c, tier), "/verif")
             viol = [l for l in out.splitlines() if l.startswith("VIOLATION") or l.strip().startswith("oracle=")]
             res[c] = {"exit": rc, "detected": rc == 1, "wall_s": round(time.time() - t0, 1), "lines": viol[:6], "summary": [l for l in out.splitlines() if l.startswith("simrun:")][-1:]}
             print(name, c, "exit", rc, "DETECTED" if rc == 1 else "MISSED", [l.strip() for l in viol[1:2]])
     finally:
-        run("git checkout -- .", "/repo")
-        run("rm -rf /verif/replays", "/verif")
+        undo()
+        run("rm -rf /tmp/verif-replays-other" if COPY else "rm -rf /verif/replays", "/verif")
     meta["ran"]["tier"] = tier
     json.dump(meta, open(f"{d}/meta.json", "w"), indent=1)
